@@ -814,3 +814,27 @@ Theorem C09X_combine_shards_within : forall K stranded (sh : dna -> N) (bs : lis
   rvalid_loose_within rpay K stranded gs (combine_graphs gs).
 Proof. exact RecompLooseCombine.combine_shards_rvalid_loose_within. Qed.
 Print Assumptions C09X_combine_shards_within.
+
+(* ---- the debug-build self check of compress_graph (known finding F11) ------------------------------------------------
+   compress_graph ends with `debug_assert!(dbg.is_compressed(compression) == None)`.  is_compressed (model:
+   Algo/IsCompressed.v) applies join_test to the FOLDED payloads of two adjacent result nodes, whereas the walk applied it
+   to the payloads of the two nodes at the junction.  For a join predicate that is not a congruence for the reduction the
+   two disagree: on the valid stranded chain AAAC -> AACC -> ACCG with colours 1, 1, 2, join = colour equality and
+   reduce = colour SUM, the model (= the release build) returns the two nodes AAACC (colour 2) and ACCG (colour 2) - the
+   correct result by C09_recompress_maximal, the junction 1 <> 2 being refused - while is_compressed answers Some (0, 1):
+   the debug build panics.  Both shipped CompressionSpec implementations (always join; payload equality with the payload
+   kept) are congruences, and for them the comparison r.is_compressed of every run finds None on every output. *)
+From DBG Require Import Algo.IsCompressed.
+Definition f11_reduce (a b : rpay) : rpay := (fst a + fst b, snd a ++ snd b).
+Definition f11_graph : graph rpay :=
+  [([0;0;0;1], 32, (1, [0])); ([0;0;1;1], 65, (1, [1])); ([0;1;1;2], 1, (2, [2]))].
+Theorem C09_debug_assert_refuted :
+  rvalid rpay 4 true f11_graph /\
+  exists out, compress_graph rpay f11_reduce (rpay_join 1) 4 true f11_graph None = Some out /\
+              out = [([0;0;0;1;1], 64, (2, [0; 1])); ([0;1;1;2], 1, (2, [2]))] /\
+              is_compressed rpay (rpay_join 1) 4 true out = Some (0%nat, 1%nat).
+Proof.
+  split; [apply rvalidb_sound; vm_compute; reflexivity|].
+  eexists. split; [vm_compute; reflexivity|]. split; [reflexivity|vm_compute; reflexivity].
+Qed.
+Print Assumptions C09_debug_assert_refuted.
